@@ -228,6 +228,7 @@ def cfg():
 def run(ctx):
     st = State()
     pt = install(ctx, st)
+    ctx.enable_disturb(pt, 0.03)     # other legitimate library calls interleaved between cases (vf.gen.disturb)
     g = cfg()
     for i in range(ctx.n(60000, 600000)):
         p = gp.gen_pep(ctx.rng, g)
